@@ -105,6 +105,7 @@ type Interp struct {
 	mapOrderAll bool
 	depth     int
 	knownActive string
+	xxMemo      []xxEntry
 	uncertain   bool
 	pathStubs   map[string]value
 	inited    map[*ssa.Package]bool
